@@ -179,6 +179,13 @@ func bytesToKey(b []byte, pasteActive bool) (rune, []byte) {
 			return utf8.RuneError, b
 		}
 		r, l := utf8.DecodeRune(b)
+		if r == utf8.RuneError && l == 1 {
+			// an invalid byte (telnet option negotiation, binary noise): skip
+			// it as an unknown key; utf8.RuneError is reserved for "need more
+			// input" and would leave the rest of the buffer unprocessed until
+			// the next read
+			return keyUnknown, b[1:]
+		}
 		return r, b[l:]
 	}
 
